@@ -205,6 +205,8 @@ def library():
                   "code": [chunked(field("name", "string"), brk(), field("c", "Coords"))]}
     t["Tail"] = {"kind": "struct", "dir": "net", "code": [field("a", "char"), field("b", "short", optional=True)]}
     t["Item"] = {"kind": "struct", "dir": "net", "code": [field("id", "short"), field("amount", "three")]}
+    # a chunked struct whose members are all fixed-size: it still has NO fixed size (chunked sections never have)
+    t["CPair"] = {"kind": "struct", "dir": "net", "code": [chunked(field("a", "char"), brk(), field("b", "char"))]}
     return t
 
 
@@ -217,6 +219,8 @@ def hand_corpus():
     def K(family, action, d, *code, rt=True):
         suffix = "ClientPacket" if d == "net/client" else "ServerPacket"
         P.append({"name": family + action + suffix, "kind": "packet", "dir": d, "family": family, "action": action, "code": list(code), "rt": rt, "gen": False})
+    # overrides resolved BEFORE the first plain use of the same type (type tables must not be keyed by the plain name)
+    S("HOverrideFirst", field("q", "bool:short"), field("p", "bool"), field("wide", "Color:short"), field("col", "Color"), field("k", "Kind:char"), field("k2", "Kind"))
     S("HInts", field("a", "byte"), field("b", "char"), field("c", "short"), field("d", "three"), field("e", "int"))
     S("HBools", field("p", "bool"), field("q", "bool:short"), field("col", "Color"), field("wide", "Color:short"), field("k", "Kind"))
     S("HStrings", field("fixed", "string", length=3), field("pad", "string", length=4, padded=True),
@@ -274,7 +278,11 @@ def hand_corpus():
     S("HChunkThenStr", chunked(field("name", "string"), brk()), field("b", "byte"), field("t", "string"))
     S("HPadOnly", field("p", "string", length=3, padded=True))
     S("HEncPadOnly", field("p", "encoded_string", length=2, padded=True), field("z", "char"))
+    S("HArrCPair", field("n", "char"), array("ps", "CPair"))
+    S("HOptBreakOpt", chunked(field("a", "char"), field("b", "short", optional=True), brk(), field("c", "string", optional=True), brk(), field("d", "char", optional=True)), rt=False)
+    S("HByteArr", array("raw", "byte", length=3), array("cs", "char"))
     K("Talk", "Request", "net/client", field("msg", "string"))
+    K("Talk", "Request", "net/server", field("code", "char"), field("msg", "string"))
     K("Account", "Reply", "net/server", field("code", "short"),
       switch("code", "short", case(1, field("reason", "string")), case(None, chunked(field("name", "string"), brk(), field("id", "int")), default=True)))
     K("Connection", "Player", "net/server", field("seq1", "short"), field("seq2", "char"))
